@@ -28,6 +28,9 @@ CLAIMED = {
  "C18": dict(technique="stateful property-based testing (RuleBasedStateMachine): index lookups versus a scan of the record list after every record-adding path",
              text="Every record-adding path (factories, new_record, add_record, update, add_bundle, constructor, JSON and XML deserialisation, unified, flattened) is exercised in random order on a document with bundles and a second document; after every step every container answers get_record(x) for every pool identifier in every accepted spelling, get_records(cls) for 23 class filters and the copy semantics of records/get_records(), all compared by object identity and order with a scan of get_records().",
              note="Trusted: the scan oracle (list comprehension over get_records()). Identifier pool of 4 URIs, histories of 25/30 steps.", ref="4 C18"),
+ "C12": dict(technique="property-based aliasing test: deriving operation x follow-up mutation x side, snapshot of the untouched side (full grid enumerated + random recipes)",
+             text="For 9 deriving operations, 7 follow-up mutations and both sides, the untouched object's complete observable state (ordered strict content, registered namespaces, default namespace, per bundle) is snapshotted before and after mutating the other object; the 9x7x2 grid is enumerated on seed documents in every run and sampled on random recipes.",
+             note="Trusted: snapshot() over public accessors. One mutation per case (no long mutation sequences).", ref="4 C12"),
 }
 PENDING_REASON = "check not built yet in this round (design in DESIGN.md section 4); not claimed until the check exists and is quiet on the unchanged tree"
 checks = []
